@@ -12,6 +12,7 @@ import (
 
 	"pgregory.net/rapid"
 
+	"verif/harness/portres"
 	"verif/harness/ref"
 	"verif/harness/sim"
 	"verif/harness/vh"
@@ -37,6 +38,10 @@ type iterCase struct {
 	// Backups: the service also has this many hosts of type Backup (replicas of the first master, which hold no keys of
 	// their own): the iteration covers the usable hosts - the main ones while any of them is healthy - and must end after the last of them
 	Backups int `json:"backup_hosts,omitempty"`
+	// DeadHost: after the iteration a host nobody listens on (connections are refused) joins the service and a client iterates
+	// once more - what it is told about that node is not judged, only that every call is answered; then the host leaves again
+	// and the terminating reply must be what it was (also in every later case of the process: the replies are process-wide objects)
+	DeadHost bool `json:"dead_host,omitempty"`
 }
 
 var terminal = ref.ArrV(ref.BulkS("0"), ref.ArrV())
@@ -253,6 +258,42 @@ func checkIter(c iterCase) (nt bool, v *verdict) {
 			return nt, &verdict{"past-last-node-not-terminal", fmt.Sprintf("SCAN %s (node index %d of %d) answered %s", past, len(c.Nodes), len(c.Nodes), r)}
 		}
 	}
+	if c.DeadHost {
+		res, err := portres.Reserve()
+		if err != nil {
+			return nt, nil
+		}
+		defer res.Release()
+		dead := []*host.Host{host.New(res.Addr)}
+		if err := px.P.OnSvcHostAdd(dead); err != nil {
+			return nt, nil
+		}
+		cur := "0"
+		for i := 0; i < bound+2; i++ {
+			r, err := cl.Do(30*time.Second, append([]string{"SCAN", cur}, extra...)...)
+			if err != nil {
+				return nt, &verdict{"reply-missing", fmt.Sprintf("with an unreachable host in the service, SCAN %s: %v", cur, err)}
+			}
+			if r.K != ref.Arr || len(r.A) != 2 || r.A[0].K != ref.Bulk {
+				break // an error reply: the client would retry later
+			}
+			if cur = string(r.A[0].S); cur == "0" {
+				break
+			}
+		}
+		if err := px.P.OnSvcHostRemove(dead); err != nil {
+			return nt, nil
+		}
+		nt = true
+		past := strconv.FormatUint(uint64(len(c.Nodes)+2)<<48|9, 10)
+		r, err := cl.Do(20*time.Second, "SCAN", past)
+		if err != nil {
+			return nt, &verdict{"reply-missing", fmt.Sprintf("SCAN past the last node: %v", err)}
+		}
+		if !ref.Equal(r, terminal) {
+			return nt, &verdict{"past-last-node-not-terminal", fmt.Sprintf("after an iteration that met an unreachable host (gone again), SCAN %s answered %s", past, r)}
+		}
+	}
 	if c.RemoveAll {
 		var hs []*host.Host
 		for _, a := range w.Addrs(w.Masters()) {
@@ -318,6 +359,7 @@ func genIter(t *rapid.T) iterCase {
 	if rapid.IntRange(0, 3).Draw(t, "backups") == 0 {
 		c.Backups = rapid.IntRange(1, 2).Draw(t, "nbackups")
 	}
+	c.DeadHost = rapid.IntRange(0, 4).Draw(t, "deadhost") == 0
 	if rapid.Bool().Draw(t, "count") {
 		c.Count = rapid.IntRange(1, 10000).Draw(t, "cnt")
 	}
